@@ -306,6 +306,12 @@ class ReconnectLogic(zeroconf.RecordUpdateListener):
             if wait_time:
                 # If we are waiting, start listening for mDNS records
                 self._start_zc_listen()
+                # A record that was received while the failed attempt was
+                # still being handled (ie. during the on_connect_error
+                # callback) turned record processing off without starting
+                # a new attempt. Turn it on again for the wait, otherwise
+                # every record received while waiting would be ignored.
+                self._accept_zeroconf_records = True
             self._schedule_connect(wait_time)
 
     def _remove_stop_task(self, _fut: asyncio.Future[None]) -> None:
